@@ -52,21 +52,4 @@ let c17_valid (line : string) : string =
        | [] -> "valid"
        | l -> "invalid " ^ String.concat "," l) ^ " xing=" ^ xing ^ " cycles=" ^ cyc
 
-(* c17_known: `<mask of 0/1, one per switch of Known.xk_defects> <schema dump> <ast dump>`: the verdict of the
-   specification with those known defects applied (used only to classify disagreements) *)
-let c17_known (line : string) : string =
-  match String.index_opt line ' ' with
-  | None -> failwith "c17_known line"
-  | Some i ->
-    let mask = List.init i (fun k -> line.[k] = '1') in
-    let rest = String.sub line (i + 1) (String.length line - i - 1) in
-    (match String.index_opt rest ' ' with
-     | None -> failwith "c17_known line"
-     | Some j ->
-       let s = schema_of (String.sub rest 0 j) in
-       let d = Lib_ast.document_of_string (String.sub rest (j + 1) (String.length rest - j - 1)) in
-       match failed_rules (xk_rule_vector (xk_of_mask mask) xv_apollo_params s d) with
-       | [] -> "valid"
-       | l -> "invalid " ^ String.concat "," l)
-
-let families = [ ("c17_valid", c17_valid); ("c17_known", c17_known) ]
+let families = [ ("c17_valid", c17_valid) ]
